@@ -41,12 +41,13 @@ def check_guard(ctx: Ctx, cname: str, member="interface_distance"):
                     continue
                 n += 1
                 amps_in_term = names_in(s.value) & set(lp.amps)
-                for test, pol in si.guards(s):
+                amps_in_term = {x for x in names_in(fv.expand(s.value, s, stop=tuple(lp.amps))) if x in lp.amps} or amps_in_term
+                for test, pol in si.effective_guards(s):
                     if not any(x is test for x in ast.walk(lp.node)):
                         continue  # guard outside the loop
                     cp = compare_parts(test)
-                    own = cp is not None and isinstance(cp[0], ast.Name) and cp[0].id in amps_in_term and isinstance(cp[1], ast.NotEq) \
-                        and isinstance(cp[2], ast.Constant) and cp[2].value == 0 and pol
+                    own = cp is not None and isinstance(cp[0], ast.Name) and cp[0].id in amps_in_term and isinstance(cp[2], ast.Constant) and cp[2].value == 0 \
+                        and ((isinstance(cp[1], ast.NotEq) and pol) or (isinstance(cp[1], ast.Eq) and not pol))
                     if not own:
                         bad = (s, test)
             if bad:
